@@ -91,6 +91,7 @@ def run_property(pid, tier='quick', seed=0, repo=None, overrides=None, write=Tru
             'rules_run': rules_run,
             'floors': spec.get('floors', {}),
             'unanalysed': [o.as_dict() for o in rep.obs if o.status == 'unanalysed'][:50],
+            'all_obligations': [[o.rule, f'{o.file}::{o.construct}', o.site[:100], o.status] for o in rep.obs],
             'modules_analysed': sorted(ctx.model.sources),
             'functions_indexed': len(ctx.model.funcs),
             'constructs_analysed': sorted(set().union(*rep.analysed.values())) if rep.analysed else [],
